@@ -54,7 +54,7 @@ var plans = map[string]plan{
 	"C20": {
 		Quick:    []stage{enumStage(), rapidStage(1_500)},
 		Thorough: []stage{enumStage(), rapidStage(120_000), fuzzStage("FuzzC20", 240), fuzzStage("FuzzBytes", 300)},
-		Rule:     "enumerated: for every component kind and path items, every reference position the document meta-model allows inside such an object down to 4 kinds (5 in the thorough tier), a skeleton document whose position refers back to the enclosing component (self, with an alias component resolved before or after it, through a component of the expected kind that refers back, to the container just above the position, or with an operation referring to the component): reference cycles of the right and of the wrong kind everywhere. generated: cases are (in-memory file tree whose root document is a docgen / repository-testdata / adversarial-reference-graph seed after 0-4 structure-level mutations (retype, delete, replace by $ref to a random / self / ancestor / hostile target, swap, copy, redirect a $ref, deep nesting) and optional token-level damage, as JSON or YAML; entry point; external-reference switch; validation option bits). On success the document is validated, marshalled to JSON and YAML, internalised, marshalled and validated again. non-trivial = the root bytes mention openapi, paths and at least one $ref (the resolver is reached). distinct = FNV-64a of the canonical case JSON.",
+		Rule:     "enumerated: for every component kind and path items, every reference position the document meta-model allows inside such an object down to 4 kinds (5 in the thorough tier), a skeleton document whose position refers back to the enclosing component (self, with an alias component resolved before or after it, through a component of the expected kind that refers back, to the container just above the position, or with an operation referring to the component): reference cycles of the right and of the wrong kind everywhere; and every position of the all-kinds base document and of six repository documents holding in turn null, a boolean, a number, a string, [], {} and an array wrapping the original (entries of the wrong JSON type). generated: cases are (in-memory file tree whose root document is a docgen / repository-testdata / adversarial-reference-graph seed after 0-4 structure-level mutations (retype, delete, replace by $ref to a random / self / ancestor / hostile target, swap, copy, redirect a $ref, deep nesting) and optional token-level damage, as JSON or YAML; entry point; external-reference switch; validation option bits). On success the document is validated, marshalled to JSON and YAML, internalised, marshalled and validated again. non-trivial = the root bytes mention openapi, paths and at least one $ref (the resolver is reached). distinct = FNV-64a of the canonical case JSON.",
 		Assume: []string{
 			"oracle: every call returns normally; non-termination is a 20 s watchdog, re-run alone with a 60 s limit before it is reported",
 			"input size <= 64 KiB; auxiliary files are served from memory through Loader.ReadFromURIFunc",
